@@ -90,7 +90,9 @@ func (r *Report) Sample(s any) {
 func (r *Report) Cap(format string, a ...any) {
 	r.mu.Lock()
 	r.Exhaustive = false
-	r.Caps = append(r.Caps, fmt.Sprintf(format, a...))
+	if len(r.Caps) < 12 {
+		r.Caps = append(r.Caps, fmt.Sprintf(format, a...))
+	}
 	r.mu.Unlock()
 }
 
@@ -170,6 +172,11 @@ func (r *Report) Finish() int {
 	for _, k := range loadKnown() {
 		if k.Property == r.Property && k.Status != "fixed" {
 			known[k.Signature] = k
+		}
+	}
+	if old, _ := filepath.Glob(filepath.Join(VerifDir, "evidence", "replays", r.Property+"-*.json")); len(old) > 0 && os.Getenv("VERIF_REPLAY") == "" {
+		for _, f := range old {
+			os.Remove(f)
 		}
 	}
 	sigs := make([]string, 0, len(r.violations))
@@ -275,4 +282,58 @@ func oneLine(s string, max int) string {
 		return string(out[:max]) + "…"
 	}
 	return string(out)
+}
+
+// Merge folds the counts of sub into r and keeps the violations whose signature
+// is accepted by keep (a harness shared by several properties reports every
+// oracle; each property's check claims only its own signatures).
+func (r *Report) Merge(sub *Report, keep func(sig string) bool) {
+	sub.mu.Lock()
+	defer sub.mu.Unlock()
+	r.mu.Lock()
+	defer r.mu.Unlock()
+	r.Evaluations += sub.Evaluations
+	r.States += sub.States
+	r.Transitions += sub.Transitions
+	r.Traces += sub.Traces
+	for k := range sub.nontrivial {
+		r.nontrivial[k] = struct{}{}
+	}
+	for k := range sub.outcomes {
+		r.outcomes[k] = struct{}{}
+	}
+	for _, s := range sub.Samples {
+		if len(r.Samples) < 8 {
+			r.Samples = append(r.Samples, s)
+		}
+	}
+	if !sub.Exhaustive {
+		r.Exhaustive = false
+	}
+	r.Caps = append(r.Caps, sub.Caps...)
+	r.Broken = append(r.Broken, sub.Broken...)
+	for k, v := range sub.Extra {
+		if old, ok := r.Extra[k].(int64); ok {
+			if nv, ok2 := v.(int64); ok2 {
+				r.Extra[k] = old + nv
+				continue
+			}
+		}
+		r.Extra[k] = v
+	}
+	other := 0
+	for sig, v := range sub.violations {
+		if keep(sig) {
+			r.vioCount[sig] += sub.vioCount[sig]
+			if _, ok := r.violations[sig]; !ok {
+				r.violations[sig] = v
+			}
+		} else {
+			other += sub.vioCount[sig]
+		}
+	}
+	if other > 0 {
+		old, _ := r.Extra["violations_of_other_properties_seen"].(int64)
+		r.Extra["violations_of_other_properties_seen"] = old + int64(other)
+	}
 }
